@@ -13,10 +13,12 @@ META = dict(
                 'cross-multiplied form, that GSNR, OSNR_ASE and SNR_NLI do not increase, that ROADM/fused/attenuation leave all '
                 'three unchanged, that an amplifier moves only OSNR_ASE and a non-Raman fibre only SNR_NLI',
     bounds=['channels k<=3 (quick) / 4 (thorough)', 'concrete fibre types (SSMF 80 km, NZDF 120 km with lumped losses, SSMF 5 km), '
-            'per-channel power <= 10 mW', 'amplifier flat profile (tilt 0), all library type_defs', 'floats as reals'],
+            'per-channel power <= 10 mW', 'amplifier flat profile (tilt 0), all library type_defs', 'floats as reals',
+            'GGN methods: 4 channels, computed_channels in {2+3, 1+4, 2, all}; efficiencies of the computed channels arbitrary in [0, 1e4]'],
     assumptions=['floats modelled as reals', 'pre-state satisfies I', 'Raman flag off',
                  'one step from an arbitrary valid state stands for paths of any length (composition checked at path level in C16 harness)'],
-    stubs=[],
+    stubs=['NliSolver._ggn_approx / _ggn_spectrally_separated -> arbitrary non-negative symbolic efficiencies (sparse-channel harness only)',
+           'scipy interp1d in science_utils -> symx.npshim.SymInterp1d (same piecewise-linear values, symbolic ordinates)'],
 )
 
 
